@@ -140,7 +140,38 @@ def verify(contract, scratch, tucache):
         inits = ctor_inits(fn)
         if inits:
             run_inits(ex, st, inits, contract)
-        if getattr(contract, 'slice_targets', None):
+        if getattr(contract, 'slice_from', None):
+            stmts_all = body(fn).get('inner', [])
+            start = None
+            for i_, s_ in enumerate(stmts_all):
+                if s_.get('kind') == 'DeclStmt' and any(c.get('name') == contract.slice_from for c in s_.get('inner', [])):
+                    start = i_
+                    break
+            if start is None:
+                raise ExtractionError(f'{contract.name}: slice start marker "{contract.slice_from}" not found')
+            stmts = stmts_all[start:]
+            # everything declared before the range is an input of the slice
+            declared_before = {}
+            for s_ in stmts_all[:start]:
+                for n_ in _walk(s_):
+                    if n_.get('kind') == 'VarDecl':
+                        declared_before[n_['id']] = n_
+            used = set()
+            for s_ in stmts:
+                for n_ in _walk(s_):
+                    if n_.get('kind') == 'DeclRefExpr' and n_.get('referencedDecl', {}).get('id') in declared_before:
+                        used.add(n_['referencedDecl']['id'])
+            for vid in sorted(used):
+                d_ = declared_before[vid]
+                nm_, v_ = bind_param(ex, st, d_, 0)
+                ex.args0[nm_] = v_
+            info['slice'] = {'from': contract.slice_from, 'statements': len(stmts), 'inputs': sorted(declared_before[v]['name'] for v in used)}
+            setup_slice = getattr(contract, 'slice_setup', None)
+            if setup_slice:
+                setup_slice(ex, st)
+            ex.entry = st.copy()
+            outs = ex.seq(stmts, st, scope=False)
+        elif getattr(contract, 'slice_targets', None):
             stmts, picked = backward_slice(body(fn), contract)
             info['slice'] = picked
             for vid, nm in contract._ext_ids.items():
